@@ -6,6 +6,7 @@ import (
 	"time"
 
 	"github.com/refraction-networking/uquic/internal/protocol"
+	"github.com/refraction-networking/uquic/quicvarint"
 	tls "github.com/refraction-networking/utls"
 )
 
@@ -14,41 +15,63 @@ import (
 // so that Marshal/MarshalForSessionTicket reproduce the exact user-specified encoding.
 func (tp *TransportParameters) PopulateFromUQUIC(quicparams tls.TransportParameters) {
 	for pIdx, param := range quicparams {
+		// The parameter may be given in its typed form (tls.MaxIdleTimeout, ...) or in raw form
+		// (a tls.FakeQUICTransportParameter carrying a standard ID). Both put the same bytes
+		// on the wire, so read the value from those bytes rather than from the Go type.
 		switch param.ID() {
 		case uint64(maxIdleTimeoutParameterID):
-			tp.MaxIdleTimeout = time.Duration(param.(tls.MaxIdleTimeout)) * time.Millisecond
+			if v, ok := uquicVarintValue(param); ok {
+				tp.MaxIdleTimeout = time.Duration(v) * time.Millisecond
+			}
 		case uint64(initialMaxDataParameterID):
-			tp.InitialMaxData = protocol.ByteCount(param.(tls.InitialMaxData))
+			if v, ok := uquicVarintValue(param); ok {
+				tp.InitialMaxData = protocol.ByteCount(v)
+			}
 		case uint64(initialMaxStreamDataBidiLocalParameterID):
-			tp.InitialMaxStreamDataBidiLocal = protocol.ByteCount(param.(tls.InitialMaxStreamDataBidiLocal))
+			if v, ok := uquicVarintValue(param); ok {
+				tp.InitialMaxStreamDataBidiLocal = protocol.ByteCount(v)
+			}
 		case uint64(initialMaxStreamDataBidiRemoteParameterID):
-			tp.InitialMaxStreamDataBidiRemote = protocol.ByteCount(param.(tls.InitialMaxStreamDataBidiRemote))
+			if v, ok := uquicVarintValue(param); ok {
+				tp.InitialMaxStreamDataBidiRemote = protocol.ByteCount(v)
+			}
 		case uint64(initialMaxStreamDataUniParameterID):
-			tp.InitialMaxStreamDataUni = protocol.ByteCount(param.(tls.InitialMaxStreamDataUni))
+			if v, ok := uquicVarintValue(param); ok {
+				tp.InitialMaxStreamDataUni = protocol.ByteCount(v)
+			}
 		case uint64(initialMaxStreamsBidiParameterID):
-			tp.MaxBidiStreamNum = protocol.StreamNum(param.(tls.InitialMaxStreamsBidi))
+			if v, ok := uquicVarintValue(param); ok {
+				tp.MaxBidiStreamNum = protocol.StreamNum(v)
+			}
 		case uint64(initialMaxStreamsUniParameterID):
-			tp.MaxUniStreamNum = protocol.StreamNum(param.(tls.InitialMaxStreamsUni))
+			if v, ok := uquicVarintValue(param); ok {
+				tp.MaxUniStreamNum = protocol.StreamNum(v)
+			}
 		case uint64(maxAckDelayParameterID):
-			tp.MaxAckDelay = time.Duration(param.(tls.MaxAckDelay)) * time.Millisecond
+			if v, ok := uquicVarintValue(param); ok {
+				tp.MaxAckDelay = time.Duration(v) * time.Millisecond
+			}
 		case uint64(disableActiveMigrationParameterID):
 			tp.DisableActiveMigration = true
 		case uint64(activeConnectionIDLimitParameterID):
-			tp.ActiveConnectionIDLimit = uint64(param.(tls.ActiveConnectionIDLimit))
+			if v, ok := uquicVarintValue(param); ok {
+				tp.ActiveConnectionIDLimit = v
+			}
 		case uint64(initialSourceConnectionIDParameterID):
-			srcConnIDOverride, ok := param.(tls.InitialSourceConnectionID)
-			if ok {
-				if len(srcConnIDOverride) > 0 {
-					// user specified a source connection ID — use it
+			if srcConnIDOverride := param.Value(); len(srcConnIDOverride) > 0 {
+				// user specified a source connection ID — use it
+				if len(srcConnIDOverride) <= protocol.MaxConnIDLen {
 					tp.InitialSourceConnectionID = protocol.ParseConnectionID(srcConnIDOverride)
-				} else {
-					// zero-length: populate the param with the actual srcConnID bytes so the
-					// wire encoding contains the correct connection ID
-					quicparams[pIdx] = tls.InitialSourceConnectionID(tp.InitialSourceConnectionID.Bytes())
 				}
+			} else if _, ok := param.(tls.InitialSourceConnectionID); ok {
+				// zero-length: populate the param with the actual srcConnID bytes so the
+				// wire encoding contains the correct connection ID
+				quicparams[pIdx] = tls.InitialSourceConnectionID(tp.InitialSourceConnectionID.Bytes())
 			}
 		case uint64(maxDatagramFrameSizeParameterID):
-			tp.MaxDatagramFrameSize = protocol.ByteCount(param.(tls.MaxDatagramFrameSize))
+			if v, ok := uquicVarintValue(param); ok {
+				tp.MaxDatagramFrameSize = protocol.ByteCount(v)
+			}
 		default:
 			// ignore unknown parameters
 			continue
@@ -57,4 +80,15 @@ func (tp *TransportParameters) PopulateFromUQUIC(quicparams tls.TransportParamet
 
 	// Store the marshaled bytes as the override so Marshal reproduces the exact fingerprint
 	tp.ClientOverride = quicparams.Marshal()
+}
+
+// uquicVarintValue reads the value of a transport parameter that is a single
+// variable-length integer from its wire encoding.
+func uquicVarintValue(param tls.TransportParameter) (uint64, bool) {
+	b := param.Value()
+	v, n, err := quicvarint.Parse(b)
+	if err != nil || n != len(b) {
+		return 0, false
+	}
+	return v, true
 }
